@@ -36,8 +36,13 @@ def gen_interfere(r, tier):
         # property's device contract holds from there on (seed C05d: feature probes cached for ever)
         outage = []
         if kind == "hwmon" and r.chance(0.3):
-            if r.chance(0.6):
+            k0 = r.below(10)
+            if k0 < 4:
                 outage.append(("hasmode=0", "hasmode=1"))
+            elif k0 < 7:
+                # a driver that, for a while, does not take mode writes (manual mode "stuck", the fallback to mode 0 may
+                # or may not appear to work, depending on the mode the firmware left): seed C05e remembered that for ever
+                outage.append((f"mode={r.pick([0, 0, 2, 3])} modewrite={r.pick(['ignored', 'ignored', 'refused'])}", "modewrite=applied"))
             if r.chance(0.6) or not outage:
                 outage.append((f"pwmread={r.pick(['perm', 'other:-1', 'other:0'])}", "pwmread=ok"))
         ops.append("#case interfere" + (" outage=1" if outage else ""))
@@ -75,7 +80,7 @@ def gen_interfere(r, tier):
 class C05(Prop):
     id = "C05"
     lean_modules = ["Fan2go.Props.C05"]
-    fact_modules = ["Fan2go.Props.Facts", "Fan2go.Props.Trans2Keys", "Fan2go.Props.Trans3A", "Fan2go.Props.Trans3B"]
+    fact_modules = ["Fan2go.Props.Facts", "Fan2go.Props.Trans2Keys", "Fan2go.Props.Trans3A", "Fan2go.Props.Trans3B", "Fan2go.Props.Trans3Fan"]
     rule = ("interfere: controller worlds (hwmon / file / cmd fans, cmd = real scripts and processes) whose PWM map reads back (identity, sparse identity, idempotent quantiser with a "
             "matching device) x every loop x curve trajectories, with an external change of mode in {0,2,3} and/or PWM 0..255 "
             "before a random cycle index (plus random extra ones). non-trivial = distinct (kind, map shape, loop, interference "
